@@ -223,7 +223,7 @@ def kani_part(report, tier):
         assert!(table.convert(&q, TEMPERATURE_IDENTS[1]).is_none());
     """, expect="fail", unwind=4, key="canary", symbolic=False))
     report.bounds["kani_table"] = "every table with <= %d rows over the 3-unit Temperature type (all row units symbolic), every source/target unit; factors 1, tag offsets, amount 7.0" % (3 if tier == "quick" else 4)
-    kc.run(report, timeout=1500)
+    kc.run(report, timeout=(600 if tier == "quick" else 3000))
     confirm_failures(report)
 
 
